@@ -380,6 +380,14 @@ func c06Prop(t vpT, c c06Case) (nontrivial bool, classes []string) {
 		}
 		return v, true
 	}
+	// structural consequence of "a partition is all rows of one key": the rows of one sampled leaf are treated
+	// as one partition, i.e. apart from whales they all carry one factor (a leaf cut into several partitions by
+	// a broken row order gets several budgets and several factors)
+	root.walk(func(p *vpsampPart) {
+		if n := m.node(p); p != root && p.leaf() && n.sampled && !obs[p].anyExmpt {
+			leafSF(p)
+		}
+	})
 	root.walk(func(p *vpsampPart) {
 		if p.leaf() || m.node(p).whole || m.node(p).exempt {
 			return
@@ -446,6 +454,9 @@ func c06Prop(t vpT, c c06Case) (nontrivial bool, classes []string) {
 
 	if fitsAll {
 		classes = append(classes, "all-fit")
+	}
+	if root.wideLevel() {
+		classes = append(classes, "level-values-over-2^31-apart")
 	}
 	if sawZeroBudget {
 		classes = append(classes, "zero-budget-partition")
